@@ -29,7 +29,7 @@ def collide(g, form):
     if not named:
         return "none"
     kind = g.pick(["helper_count", "helper_other", "meta", "dup_sibling", "dup_case", "dup_elsewhere", "section_twice",
-                   "form_name", "instanceID", "dup_cross_section"])
+                   "form_name", "instanceID", "dup_cross_section", "dup_line_feed"])
     n, anc = g.pick(named)
     reps = [x for x, _ in named if x["k"] == "r"]
     qs = [x for x, _ in named if x["k"] == "q"]
@@ -56,6 +56,12 @@ def collide(g, form):
         if other is not n:
             nm = other["c"]["name"]
             n["c"]["name"] = nm.upper() if kind == "dup_case" and nm.upper() != nm else nm
+    elif kind == "dup_line_feed":
+        # cells kept as typed (documented clean_text_values=no): a name followed by a line feed is written as the same XML name
+        other, _ = g.pick(named)
+        if other is not n:
+            n["c"]["name"] = other["c"]["name"] + g.pick(["\n", "\n", " ", "\t"])
+            form.setdefault("settings", {})["clean_text_values"] = "no"
     elif kind == "section_twice" and len(secs) >= 1:
         s_ = g.pick(secs)
         if n is not s_:
@@ -74,6 +80,10 @@ def _cases(draw):
     c = {"form": form}
     if g.p("_", 0.25):
         c["collision"] = collide(g, form)
+    if g.p("_", 0.06):
+        # the legacy 'flat' setting hoists the content of groups into their parent
+        form.setdefault("settings", {})["flat"] = "yes"
+        c["flat"] = True
     return c
 
 
